@@ -14,9 +14,9 @@ def register(group):
     g.append(('gen_Arc_unit_tangent', 'Arc.unit_tangent', [('self', T.ARC), ('t', 'R')], ('opt', 'C')))
     g.append(('gen_Arc_normal', 'Arc.normal', [('self', T.ARC), ('t', 'R')], ('opt', 'C')))
     g.append(('gen_Arc_curvature', 'Arc.curvature', [('self', T.ARC), ('t', 'R')], 'R'))
-    g.append(('gen_Quad_unit_tangent', 'QuadraticBezier.unit_tangent', [('self', T.QUAD), ('t', 'R')], 'C'))
-    g.append(('gen_Cubic_unit_tangent', 'CubicBezier.unit_tangent', [('self', T.CUBIC), ('t', 'R')], 'C'))
-    g.append(('gen_Quad_normal', 'QuadraticBezier.normal', [('self', T.QUAD), ('t', 'R')], 'C'))
-    g.append(('gen_Cubic_normal', 'CubicBezier.normal', [('self', T.CUBIC), ('t', 'R')], 'C'))
+    g.append(('gen_Quad_unit_tangent', 'QuadraticBezier.unit_tangent', [('self', T.QUAD), ('t', 'R')], ('opt', 'C')))
+    g.append(('gen_Cubic_unit_tangent', 'CubicBezier.unit_tangent', [('self', T.CUBIC), ('t', 'R')], ('opt', 'C')))
+    g.append(('gen_Quad_normal', 'QuadraticBezier.normal', [('self', T.QUAD), ('t', 'R')], ('opt', 'C')))
+    g.append(('gen_Cubic_normal', 'CubicBezier.normal', [('self', T.CUBIC), ('t', 'R')], ('opt', 'C')))
     g.append(('gen_Quad_curvature', 'QuadraticBezier.curvature', [('self', T.QUAD), ('t', 'R')], 'R'))
     g.append(('gen_Cubic_curvature', 'CubicBezier.curvature', [('self', T.CUBIC), ('t', 'R')], 'R'))
